@@ -183,6 +183,21 @@ def OBJSTR():
     return _fn("py_obj_str", Obj, z3.StringSort())
 
 
+import sys as _sys
+# CPython's limit on int <-> decimal str conversions, read before the checker lifts it for its own process (vf/run.py)
+INT_STR_LIMIT = _sys.get_int_max_str_digits() if hasattr(_sys, "get_int_max_str_digits") else 0
+
+
+def _pow10(n):
+    """the numeral 10**n without going through a decimal string longer than the interpreter allows"""
+    t = z3.IntVal(1)
+    while n > 0:
+        k = min(n, 4000)
+        t = t * z3.IntVal(10 ** k)
+        n -= k
+    return z3.simplify(t)
+
+
 def int_to_str_term(t):
     return z3.If(t >= 0, z3.IntToStr(t), z3.Concat(z3.StringVal("-"), z3.IntToStr(-t)))
 
@@ -191,6 +206,13 @@ def py_str(ctx, v):
     if isinstance(v, SStr):
         return v
     if isinstance(v, SInt):
+        if getattr(ctx, "opts", {}).get("int_str_limit"):
+            # CPython >= 3.11: str(int) refuses ints with more than sys.get_int_max_str_digits() decimal digits
+            lim = INT_STR_LIMIT
+            if lim:
+                big = _pow10(lim)
+                if ctx.branch(z3.Or(v.term >= big, v.term <= -big)):
+                    raise SymRaise(ValueError("Exceeds the limit (%d digits) for integer string conversion" % lim))
         if getattr(ctx, "opts", {}).get("abstract_int_str"):
             ctx.note("stub: str(int) is the uninterpreted function py_int_str (over-approximation used "
                      "for key equalities)")
